@@ -6,6 +6,7 @@ require (
 	github.com/atlassian/gostatsd v0.0.0
 	github.com/sirupsen/logrus v1.9.0
 	github.com/spf13/viper v1.17.0
+	golang.org/x/time v0.3.0
 )
 
 require (
@@ -31,7 +32,6 @@ require (
 	golang.org/x/net v0.35.0 // indirect
 	golang.org/x/sys v0.30.0 // indirect
 	golang.org/x/text v0.22.0 // indirect
-	golang.org/x/time v0.3.0 // indirect
 	google.golang.org/protobuf v1.34.1 // indirect
 	gopkg.in/ini.v1 v1.67.0 // indirect
 	gopkg.in/yaml.v3 v3.0.1 // indirect
